@@ -6,6 +6,7 @@ import (
 	"fmt"
 	"strings"
 	"testing"
+	"testing/iotest"
 	"time"
 
 	"github.com/biogo/hts/sam"
@@ -77,6 +78,7 @@ func roundTrip(hd *sam.Header, refsForSpec []sb.RefSpec) string {
 	if err != nil {
 		return "MarshalText: " + err.Error()
 	}
+	keepT := append([]byte(nil), t1...)
 	h2, err := sam.NewHeader(t1, nil)
 	if err != nil {
 		return fmt.Sprintf("the text MarshalText produced is rejected: %v\n%q", err, t1)
@@ -91,6 +93,28 @@ func roundTrip(hd *sam.Header, refsForSpec []sb.RefSpec) string {
 	b1, err := hd.MarshalBinary()
 	if err != nil {
 		return "MarshalBinary: " + err.Error()
+	}
+	keepB := append([]byte(nil), b1...)
+	// what a Marshal call returned belongs to the caller: marshalling another
+	// header must not change it
+	decoy, _ := sam.NewHeader([]byte("@HD\tVN:1.6\tSO:queryname\n@SQ\tSN:decoy\tLN:7\n@CO\tdecoy\n"), nil)
+	if decoy != nil {
+		decoy.MarshalBinary()
+		decoy.MarshalText()
+	}
+	if !bytes.Equal(t1, keepT) {
+		return fmt.Sprintf("the text MarshalText returned changed when another header was marshalled:\n%q\n%q", keepT, t1)
+	}
+	if !bytes.Equal(b1, keepB) {
+		return fmt.Sprintf("the bytes MarshalBinary returned changed when another header was marshalled (first difference at %d)", firstDiff(keepB, b1))
+	}
+	// the binary form read from a source that delivers it in pieces
+	var h4 sam.Header
+	if err := h4.DecodeBinary(iotest.OneByteReader(bytes.NewReader(b1))); err != nil {
+		return fmt.Sprintf("DecodeBinary from a reader that returns one byte per call: %v", err)
+	}
+	if b4, _ := h4.MarshalBinary(); !bytes.Equal(b4, keepB) {
+		return fmt.Sprintf("binary changes after DecodeBinary from a reader in pieces (first difference at %d)", firstDiff(keepB, b4))
 	}
 	if refsForSpec != nil {
 		if want := sb.SpecBAMHeader(t1, refsForSpec); !bytes.Equal(b1, want) {
